@@ -711,6 +711,11 @@ class Observer:
             printstmt.close()
         except BaseException:
             pass
+        try:
+            import exportcheck
+            exportcheck.close()
+        except BaseException:
+            pass
         if self.tracer:
             self.tracer.close()
         if self.I:
@@ -723,6 +728,20 @@ class Observer:
     def check(self, p2, att, hist):
         ir = p2.INTERNAL_proc()
         op = att["op"]
+        # ---- 0'. exporter cross-check: the JSON export (what every semantic check sees) printed by the Lean printer
+        #          model equals the real printer's text (blind fields masked on the real side) — docs/C17X.md
+        try:
+            import exportcheck
+            r = exportcheck.check_proc_full(p2)
+            self.cnt("export-tie:" + r["status"])
+            if r["status"] == "mismatch":
+                self.record("tie", "export_ir", "the export misrepresents the LoopIR: " + "; ".join(map(str, r["mismatches"][:3]))[:500], att, hist)
+            elif r["status"] == "skipped" or r.get("units_skipped"):
+                self.cnt("export-tie-skip:" + str(r.get("why", "?"))[:40])
+        except BaseException as e:
+            if isinstance(e, (KeyboardInterrupt, SystemExit, MemoryError)) or type(e).__name__ == "InfraError":
+                raise
+            self.cnt("export-tie-exception:" + type(e).__name__)
         # ---- 0. statement-level tie: the text the real printer produces is the model's ppProc output
         #         (Props/C17Stmt.lean parse_print_stmt is about that model)
         try:
